@@ -289,6 +289,10 @@ class ScalarEval(AbsInt):
     def binop(self, node, l, r, ctx):
         op = node.op
         if isinstance(op, ast.Mult):
+            # [c] * len(<the factors>): one constant per factor
+            for lst, n in ((l, r), (r, l)):
+                if lst[0] == "list" and len(lst[1]) == 1 and n[0] == "len" and n[1][0] == "famlist" and n[1][1] == VAR:
+                    return ("famlist", lst[1][0])
             return ("mul", (l, r))
         if isinstance(op, ast.Div):
             return ("mul", (l, ("inv", r)))
@@ -393,6 +397,12 @@ class ScalarEval(AbsInt):
                     return (kind, v[1])
                 if kind and v[0] == "list":
                     return ("mul" if kind == "fprod" else "add", tuple(v[1]))
+        if dotted == "math.prod" and len(args) == 1:
+            v = args[0]
+            if v[0] == "famlist":
+                return ("fprod", v[1])
+            if v[0] == "list":
+                return ("mul", tuple(v[1]))
         return ("opaque", dotted)
 
     def call_dispatch(self, fname, node, args, kwargs, ctx):
